@@ -47,7 +47,7 @@ def sequence(rng, exact):
         elif r < 5:
             for _ in range(rng.choice([1, 2, 3, 12, 64, 66])):
                 if rng.below(2):
-                    t += ["CR", "0", "1", "#" + G.rpremul(rng)]
+                    t += ["CR", "0", "1", G.rcolor(rng) if rng.below(3) == 0 else "#" + G.rpremul(rng)]
                 else:
                     t += ["NR", "0", "1", exact_f(rng)]
         elif r < 6:
